@@ -363,7 +363,8 @@ Section Sys.
       match drain fuel (upd_pa s1 (fun q => pa_more q m)) with
       | (s2, DErr e) => (s2, PRaise e)
       | (s2, DPaused) => (upd_pa s2 (fun q => pa_tail q (drop required chunk)), PPending)
-      | (s2, DDone) => if plength (pa s2) =? 0 then finish_eof s2 (drop required chunk) else (s2, PNeeds)
+      | (s2, DDone) => if plength (pa s2) =? 0 then finish_eof s2 (drop required chunk)
+                       else (upd_pa s2 (fun q => pa_paused q false), PNeeds)
       end
     end.
 
@@ -381,7 +382,7 @@ Section Sys.
           | (s3, Some e) => (s3, PRaise e)
           | (s3, None) => (upd_pa s3 (fun q => pa_eofp (pa_done q true) false), PComplete [])
           end
-        else (s2, PNeeds)
+        else (upd_pa s2 (fun q => pa_paused q false), PNeeds)
       end
     end.
 
@@ -411,7 +412,7 @@ Section Sys.
         end
       | None =>
         if memN 10 chunk then BRet s (PRaise ETransferEncoding)
-        else BRet (upd_pa s (fun q => pa_tail q chunk)) PNeeds
+        else BRet (upd_pa s (fun q => pa_paused (pa_tail q chunk) false)) PNeeds
       end
     | _ => BNext s chunk
     end.
@@ -441,7 +442,7 @@ Section Sys.
       let sp := sep s in
       if list_eqb (take (lenN sp) chunk1) sp then BNext (upd_pa s (fun q => pa_cst q CSize)) (drop (lenN sp) chunk1)
       else if (lenN sp <=? lenN chunk1) || negb (list_eqb chunk1 (take (lenN chunk1) sp)) then BRet s (PRaise ETransferEncoding)
-      else BRet (upd_pa s (fun q => pa_tail q chunk1)) PNeeds
+      else BRet (upd_pa s (fun q => pa_paused (pa_tail q chunk1) false)) PNeeds
     | _ => BNext s chunk
     end.
 
@@ -451,7 +452,7 @@ Section Sys.
       match find (sep s) chunk with
       | None =>
         if memN 10 chunk then BRet s (PRaise ETransferEncoding)
-        else BRet (upd_pa s (fun q => pa_tail q chunk)) PNeeds
+        else BRet (upd_pa s (fun q => pa_paused (pa_tail q chunk) false)) PNeeds
       | Some pos =>
         let line0 := take pos chunk in
         let chunk1 := drop (pos + lenN (sep s)) chunk in
@@ -474,7 +475,7 @@ Section Sys.
     match fuel with
     | O => (s, PRaise EFuel)
     | S f =>
-      if isnil chunk && negb (more (pa s)) then (s, PNeeds) else
+      if isnil chunk && negb (more (pa s)) then (upd_pa s (fun q => pa_paused q false), PNeeds) else
       match blk_size s chunk with
       | BRet s1 r => (s1, r) | BCont s1 c1 => chunk_loop f s1 c1
       | BNext s1 c1 =>
@@ -539,16 +540,21 @@ Section Sys.
 
   Definition pr_set (s : st) (f : prot -> prot) : st := set_pr s (f (pr s)).
 
-  (* connection_lost(None) on the client protocol *)
+  (* connection_lost(None) on the client protocol.  The parser is kept (with _payload_has_more_data set by
+     HttpParser.feed_eof) when the payload parser's feed_eof() returned early because the reader is full:
+     resume_reading() -> data_received(b"") then delivers the rest of the body and its EOF. *)
   Definition connection_lost (fuel : nat) (s : st) : st :=
-    let s1 :=
+    let '(s1, keep) :=
       if parser_alive (pr s) && pp_present (pr s) then
         match payload_feed_eof fuel s with
-        | (s1, Some e) => rd_set_exn s1 e      (* set_exception(self._payload, ClientPayloadError(...)) *)
-        | (s1, None) => if pdone (pa s1) then pr_set s1 (fun p => mkProt (connected p) (tpaused p) (rpaused p) (parser_alive p) false (has_more p) (closing p)) else s1
+        | (s1, Some e) => (rd_set_exn s1 e, false)      (* set_exception(self._payload, ClientPayloadError(...)) *)
+        | (s1, None) =>
+          if pdone (pa s1)
+          then (pr_set s1 (fun p => mkProt (connected p) (tpaused p) (rpaused p) (parser_alive p) false (has_more p) (closing p)), false)
+          else (s1, true)
         end
-      else s in
-    pr_set s1 (fun p => mkProt false (tpaused p) false false (pp_present p) (has_more p) false).
+      else (s, false) in
+    pr_set s1 (fun p => mkProt false (tpaused p) false (keep && parser_alive p) (pp_present p) (keep || has_more p) false).
 
   Definition parser_feed (fuel : nat) (s : st) (data : bytes) : st :=
     if negb (parser_alive (pr s)) then s else                 (* data_received: `self._parser is None` *)
@@ -630,7 +636,11 @@ Section Sys.
   Definition op_body (fuel : nat) (s : st) (o : op) : st * ores :=
     let r := re s in
     if isnil (buf r) && negb (reof r) then
-      if connected (pr s) then (set_wt s WWaiting, RBlocked) else (set_wt s WNone, RErr EConnClosed)
+      (* _wait(): a pending exception first, then the connection test, then the waiter *)
+      match rexn r with
+      | Some e => (set_wt s WNone, RErr e)
+      | None => if connected (pr s) then (set_wt s WWaiting, RBlocked) else (set_wt s WNone, RErr EConnClosed)
+      end
     else
       let s := set_wt s WNone in
       match o with
